@@ -106,7 +106,7 @@ def run_history(case, backend):
             await conform.drive(peer, sess, [tuple(o) for o in case["ops"]], world=None, check_tree=False, on_step=on_step, payload_of=lambda op: (b"UP:" + op[1].encode("utf-8", "replace") + b":") * 3)
             peer.close()
             await asyncio.sleep(1)
-            await asyncio.wait_for(server.close(), 1e4)
+            await common.close_server(server)
 
         try:
             world.run(main())
@@ -316,7 +316,7 @@ def run_two_history(case, backend):
             for p in peers.values():
                 p.close()
             await asyncio.sleep(1)
-            await asyncio.wait_for(server.close(), 1e4)
+            await common.close_server(server)
 
         try:
             world.run(main())
